@@ -503,6 +503,9 @@ pub fn build_reg_endurance(name: &'static str, prop: &'static str, rounds: u64) 
         let pos = |tag: &str, a: u64| e.log.iter().position(|ev| ev.tag == tag && ev.a == a);
         let released = pos("delivery_released", 0).ok_or("engine: the stalled delivery was never released")?;
         let ret = pos("unreg_ret", 2).ok_or("C18: unregister never returned")?;
+        if e.log[ret].b == 0 {
+            return Err(format!("{}: unregister of an action whose registration had returned answered false (it was never in the registry)", prop));
+        }
         let spins = e.log[..released].iter().filter(|ev| ev.tag == "yield" || ev.tag == "spin_hint").count() as u64;
         if let Some(b2) = e.log.iter().position(|ev| ev.tag == "act_begin" && ev.a == 2) {
             if b2 > ret {
@@ -682,6 +685,9 @@ pub struct RP {
     /// C04: another thread installs a handler of its own for this signal with a plain sigaction call, at
     /// any instant before the library's handler is the disposition
     pub foreign_installer: Option<i32>,
+    /// before the scenario proper, an action whose captured value panics when it is destroyed is removed
+    /// (the panic is caught): the registry's writer mutex is poisoned from then on
+    pub poison_first: bool,
 }
 
 struct Delivery {
@@ -1055,6 +1061,20 @@ pub fn build_reg(p: RP) -> Scenario<Arc<RS>> {
     let pp = p.clone();
     let setup = move || {
         fresh_registry(&pp.disps);
+        if pp.poison_first {
+            struct Bomb;
+            impl Drop for Bomb {
+                fn drop(&mut self) {
+                    if !std::thread::panicking() {
+                        panic!("a captured value panics when it is destroyed");
+                    }
+                }
+            }
+            let b = Bomb;
+            let id = unsafe { reg::register(S2, move || { let _ = &b; }) }.expect("register");
+            let r = std::panic::catch_unwind(|| reg::unregister(id));
+            assert!(r.is_err(), "the removal was expected to unwind");
+        }
         let s = RS { ids: Mutex::new(HashMap::new()) };
         run_mops(&s, &pp.pre, pp.pause_in_action);
         Arc::new(s)
@@ -1281,10 +1301,16 @@ pub struct Owner {
 }
 
 pub fn build_owner_drop(name: &'static str) -> Scenario<Arc<Owner>> {
-    let setup = || {
+    let after_rejected_add = name.contains("rejected_add");
+    let setup = move || {
         fresh_registry(&[(S1, Disp::Ignore), (S2, Disp::Ignore)]);
         let s = signal_hook::iterator::Signals::new(&[S1, S2]).expect("new");
         let h = s.handle();
+        if after_rejected_add {
+            // an addition refused by panic, survived by the application, earlier in the instance's life
+            let r = std::panic::catch_unwind(std::panic::AssertUnwindSafe(|| h.add_signal(libc::SIGKILL)));
+            assert!(r.is_err());
+        }
         Arc::new(Owner { inst: Mutex::new(Some(s)), handle: Mutex::new(Some(h)) })
     };
     let m = ThreadSpec {
@@ -1443,6 +1469,7 @@ fn rp(name: &'static str, prop: &'static str) -> RP {
         stale: true,
         max_delivery_steps: 8,
         foreign_installer: None,
+        poison_first: false,
     }
 }
 
@@ -1466,8 +1493,16 @@ pub fn scenarios(prop: &str, tier: Tier) -> Vec<Item> {
                 p.pause_in_action = true;
                 v.push(item(build_reg(p), b(2, 3), "two removal calls for one action on two threads vs deliveries paused inside the action: when either call returns nothing is in progress and the captures are released"));
             }
+            let mut p = rp("reg_two_mutators_after_poisoned_writer_lock", "C01");
+            p.pre = vec![Reg(S1, 1), Reg(S1, 2)];
+            p.mutators = vec![vec![Unreg(1), Reg(S1, 3)], vec![Unreg(2), Reg(S1, 4)]];
+            p.deliverers = vec![vec![S1]];
+            p.poison_first = true;
+            p.pause_in_action = true;
+            v.push(item(build_reg(p), b(2, 3), "two mutators and a delivery after an earlier removal unwound (a captured value panicked in its destructor) and poisoned the writer mutex: writers are still serialised"));
             // removal by dropping the owner, after two threads added the same signal to it at the same time
             v.push(item(crate::propsb::c12::sched_part::build_n("owner_drop_after_two_threads_added_one_signal", 2, false, "C01"), b(2, 3), "two threads add the same signal to one iterator instance through handle clones while it is delivered; when the owner and all handles are gone no action of the instance runs any more"));
+            v.push(item(build_owner_drop("owner_drop_after_rejected_add_vs_deliveries"), b(2, 3), "the same after an addition that was refused by panic (and survived) earlier in the instance's life"));
             // a signal of the forbidden list, hooked through the unchecked entry point and sent by software
             let mut p = rp("reg_unregister_vs_deliveries_sigfpe_unchecked", "C01");
             p.disps = vec![(libc::SIGFPE, Disp::Ignore), (S2, Disp::Ignore)];
@@ -1597,6 +1632,12 @@ pub fn scenarios(prop: &str, tier: Tier) -> Vec<Item> {
                 p.nest = vec![libc::SIGURG];
                 v.push(item(build_reg(p), b(2, 3), "taken over from a handler installed with SA_RESETHAND|SA_NODEFER(|SA_ONSTACK): it is chained in every one of three deliveries and the library's handler stays installed without those flags"));
             }
+            let mut p = rp("chain_sigfpe_unchecked", "C04");
+            p.disps = vec![(libc::SIGFPE, Disp::Info), (S2, Disp::Plain)];
+            p.mutators = vec![vec![RegUnchecked(libc::SIGFPE, 1), RegUnchecked(libc::SIGFPE, 2)], vec![Reg(S2, 5)]];
+            p.deliverers = vec![vec![libc::SIGFPE, libc::SIGFPE]];
+            p.nest = vec![libc::SIGFPE];
+            v.push(item(build_reg(p), b(2, 3), "a signal of the forbidden list with a pre-existing three-argument handler, hooked through register_unchecked and raised by software: chained once, before any action"));
             let mut p = rp("chain_overlapping_deliveries", "C04");
             p.disps = vec![(S1, Disp::PlainPausing), (S2, Disp::Plain)];
             p.pre = vec![Reg(S1, 1)];
